@@ -86,6 +86,14 @@ CLAIMED = {
         note="floats modelled as reals; F<=3, N<=3; cos through a structural cache with congruence instances; rint lemmas for the "
              "wrapped run; selections concrete and of constant size; 0/0 cases excluded by assumption.",
         ref="DESIGN.md C06"),
+    "C16": dict(
+        text="Bounded symbolic model checking of spatial_average, gaussian_blurring and time_average with all property values, "
+             "positions, bounds, sigma, cut-off, dt and period symbolic; grid = full Cartesian product in row-major order with the "
+             "documented Gaussian sums; window means and central index; the flat-index and middle-index expressions are taken "
+             "from the AST and decided by z3 for all grid shapes <= 64 per axis and all windows <= 10^6.",
+        note="floats modelled as reals; exp through a structural cache; cut-off tests left free for 3 grid points per run (others "
+             "assumed inside); int(period/interval) concretised by forking; open boundaries in the blurring runs (quick).",
+        ref="DESIGN.md C16"),
 }
 
 NOT_APPLICABLE = {
